@@ -29,21 +29,23 @@ def rmin(a, b):
     return If(a <= b, a, b)
 
 
-def piece(t0, t1, v0, v1, p0, p1, step, per_time):
+def piece(t0, t1, v0, v1, p0, p1, step, per_time, div=None):
     """exact contribution of the interval [t0,t1] (integer microseconds) to the window [p0,p1];
     step: None (linear) or a real term sigma"""
     R = z3.ToReal(t1 - t0)
-    a = rmax(z3.ToReal(p0), z3.ToReal(t0))
-    b = rmin(z3.ToReal(p1), z3.ToReal(t1))
-    x0 = (a - z3.ToReal(t0)) / R  # relative positions of the overlap in the interval
-    x1 = (b - z3.ToReal(t0)) / R
+    # relative positions (in [0,1]) of the overlap [max(p0,t0), min(p1,t1)] within the interval
+    div = div or sv.rdiv
+    x0 = rmax(div(z3.ToReal(p0 - t0), R), z3.RealVal(0))
+    x1 = rmin(div(z3.ToReal(p1 - t0), R), z3.RealVal(1))
     if step is None:
         fa = v0 + x0 * (v1 - v0)
         fb = v0 + x1 * (v1 - v0)
         w = (x1 - x0) * 0.5 * (fa + fb)  # integral in units of the interval length
     else:
-        old_w = If(x1 <= step, x1 - x0, If(x0 >= step, z3.RealVal(0), step - x0))  # part of [x0,x1] at or below sigma
-        w = old_w * v0 + ((x1 - x0) - old_w) * v1
+        # lengths of [x0,x1] n (-inf,sigma] and [x0,x1] n [sigma,inf)  (lemma C12.Lw ties them to the case form)
+        old_w = rmin(step, x1) - rmin(x0, step)
+        new_w = rmax(step, x1) - rmax(step, x0)
+        w = old_w * v0 + new_w * v1
     if per_time:
         w = w * (R / US)
     return If(Or(p0 >= t1, p1 <= t0), z3.RealVal(0), w)
@@ -61,15 +63,140 @@ def area_axioms(ctx, step_mode, per_time):
     k = z3.Int("ax_k")
     st = strip_none(ctx.get(a, "_step")).e if step_mode else None
     pk = piece(tm(d, k), tm(d, k + 1), val_in(ctx, d.at(k).items[1]), val_in(ctx, d.at(k + 1).items[1]), p0, p1, st, per_time)
+    i, m = z3.Ints("ax_i ax_m")
     return [AREA(0) == 0,
-            z3.ForAll([k], Implies(And(0 <= k, k + 1 < d.n), AREA(k + 1) == AREA(k) + pk), patterns=[AREA(k + 1)])]
+            z3.ForAll([k], Implies(And(0 <= k, k + 1 < d.n), AREA(k + 1) == AREA(k) + pk), patterns=[AREA(k + 1)]),
+            # lemma C12.L0 (proved by induction, see lemmas below): intervals at or after the window's end add nothing
+            z3.ForAll([i, m], Implies(And(0 <= i, i <= m, m < d.n, p1 <= tm(d, i)), AREA(m) == AREA(i)),
+                      patterns=[z3.MultiPattern(AREA(m), AREA(i))])]
+
+
+# ------------------------------------------------------------------------------------------------ lemmas
+def _generic(step_mode, per_time, suffix=""):
+    """a generic sorted history as uninterpreted sequences, with Area over a window [p0,p1]"""
+    Tf = z3.Function("LT" + suffix, sv.IntS, sv.IntS)
+    Vf = z3.Function("LV" + suffix, sv.IntS, sv.RealS)
+    n = z3.Int("Ln" + suffix)
+    st = z3.Real("Lstep") if step_mode else None
+    i, j = z3.Ints("Li Lj")
+    hyps = [n >= 1, z3.ForAll([i, j], Implies(And(0 <= i, i < j, j < n), Tf(i) < Tf(j)))]
+    if step_mode:
+        hyps += [st >= 0, st <= 1]
+    return Tf, Vf, n, st, hyps
+
+
+def _area_def(A, Tf, Vf, n, st, p0, p1, per_time):
+    k = z3.Int("Lk")
+    pk = piece(Tf(k), Tf(k + 1), Vf(k), Vf(k + 1), p0, p1, st, per_time)
+    return [A(0) == 0, z3.ForAll([k], Implies(And(0 <= k, k + 1 < n), A(k + 1) == A(k) + pk), patterns=[A(k + 1)])]
+
+
+def lemma_weights():
+    """C12.Lw: for x0 <= x1 the min/max form of the step weights is the piecewise definition of the
+    step interpolant (old value while position <= sigma): pure linear arithmetic"""
+    x0, x1, s = z3.Reals("Lx0 Lx1 Ls")
+    old_w = rmin(s, x1) - rmin(x0, s)
+    new_w = rmax(s, x1) - rmax(s, x0)
+    case_old = If(x1 <= s, x1 - x0, If(x0 >= s, z3.RealVal(0), s - x0))
+    return [x0 <= x1], And(old_w == case_old, new_w == (x1 - x0) - case_old, old_w >= 0, new_w >= 0)
+
+
+def _true_div(a, b):
+    return a / b
+
+
+def lemma_piece_additive(step_mode, per_time):
+    """C12.L1a: on one interval the contributions of [a,b] and [b,c] add up to that of [a,c] (real arithmetic)"""
+    def fn():
+        t0, t1, a, b, c = z3.Ints("Lt0 Lt1 La Lb Lc")
+        v0, v1, st = z3.Reals("Lv0 Lv1 Lst")
+        s_ = st if step_mode else None
+        hyps = [t0 < t1, a <= b, b <= c] + ([st >= 0, st <= 1] if step_mode else [])
+        P = lambda x, y: piece(t0, t1, v0, v1, x, y, s_, per_time, div=_true_div)
+        return hyps, P(a, b) + P(b, c) == P(a, c)
+    return fn
+
+
+def lemma_sum_additive():
+    """C12.L1b (induction step): if every piece is additive, so are the sums  Area_ab + Area_bc = Area_ac"""
+    Aab, Abc, Aac = [z3.Function(n, sv.IntS, sv.RealS) for n in ("LAab", "LAbc", "LAac")]
+    Pab, Pbc, Pac = [z3.Function(n, sv.IntS, sv.RealS) for n in ("LPab", "LPbc", "LPac")]
+    m, k = z3.Ints("Lm Lk")
+    hyps = [z3.ForAll([k], Pab(k) + Pbc(k) == Pac(k))]
+    for A, P in ((Aab, Pab), (Abc, Pbc), (Aac, Pac)):
+        hyps += [A(0) == 0, z3.ForAll([k], Implies(k >= 0, A(k + 1) == A(k) + P(k)), patterns=[A(k + 1)])]
+    hyps += [m >= 0, Aab(m) + Abc(m) == Aac(m)]
+    return hyps, Aab(m + 1) + Abc(m + 1) == Aac(m + 1)
+
+
+def lemma_piece_bounds(step_mode):
+    """C12.L2a: a per-time piece lies between min and max of the contributing values times the overlap length"""
+    def fn():
+        t0, t1, a, b = z3.Ints("Lt0 Lt1 La Lb")
+        v0, v1, st = z3.Reals("Lv0 Lv1 Lst")
+        s_ = st if step_mode else None
+        hyps = [t0 < t1, a < b] + ([st >= 0, st <= 1] if step_mode else [])
+        pc = piece(t0, t1, v0, v1, a, b, s_, True, div=_true_div)
+        lo, hi = rmin(v0, v1), rmax(v0, v1)
+        ov = rmax(z3.RealVal(0), rmin(z3.ToReal(b), z3.ToReal(t1)) - rmax(z3.ToReal(a), z3.ToReal(t0))) / US  # overlap in seconds
+        return hyps, And(lo * ov <= pc, pc <= hi * ov)
+    return fn
+
+
+def lemma_overlap_telescopes():
+    """C12.L2b (induction step): overlap lengths of consecutive intervals sum to the window part covered so far"""
+    Tf = z3.Function("LT", sv.IntS, sv.IntS)
+    L = z3.Function("LL", sv.IntS, sv.RealS)
+    p0, p1, m, n, i, j, k = z3.Ints("Lp0 Lp1 Lm Ln Li Lj Lk")
+    ov = lambda q: rmax(z3.RealVal(0), rmin(z3.ToReal(p1), z3.ToReal(Tf(q + 1))) - rmax(z3.ToReal(p0), z3.ToReal(Tf(q))))
+    claim = lambda q: L(q) == rmax(z3.RealVal(0), rmin(z3.ToReal(p1), z3.ToReal(Tf(q))) - z3.ToReal(p0))
+    hyps = [z3.ForAll([i, j], Implies(And(0 <= i, i < j, j < n), Tf(i) < Tf(j))), Tf(0) <= p0, p0 <= p1,
+            L(0) == 0, z3.ForAll([k], Implies(And(0 <= k, k + 1 < n), L(k + 1) == L(k) + ov(k)), patterns=[L(k + 1)]),
+            0 <= m, m + 1 < n, claim(m)]
+    return hyps, And(claim(z3.IntVal(0)), claim(m + 1))
+
+
+def lemma_mean_step():
+    """C12.L2c (induction step): lo*L(m) <= Area(m) <= hi*L(m) is preserved when each piece is bounded"""
+    A, L, P, O = [z3.Function(n, sv.IntS, sv.RealS) for n in ("LA", "LL", "LP", "LO")]
+    lo, hi = z3.Reals("Llo Lhi")
+    m, k = z3.Ints("Lm Lk")
+    hyps = [z3.ForAll([k], And(lo * O(k) <= P(k), P(k) <= hi * O(k), O(k) >= 0)),
+            z3.ForAll([k], Implies(k >= 0, And(A(k + 1) == A(k) + P(k), L(k + 1) == L(k) + O(k))), patterns=[A(k + 1)]),
+            m >= 0, lo * L(m) <= A(m), A(m) <= hi * L(m)]
+    return hyps, And(lo * L(m + 1) <= A(m + 1), A(m + 1) <= hi * L(m + 1))
+
+
+def lemma_tail(step_mode, per_time):
+    """induction step of L0: Area(m) == Area(i) and p1 <= T(i) <= ... ==> Area(m+1) == Area(i)"""
+    def fn():
+        Tf, Vf, n, st, hyps = _generic(step_mode, per_time)
+        A = z3.Function("LA", sv.IntS, sv.RealS)
+        p0, p1, i, m = z3.Ints("Lp0 Lp1 Li0 Lm")
+        hyps = hyps + _area_def(A, Tf, Vf, n, st, p0, p1, per_time) + [0 <= i, i <= m, m + 1 < n, p1 <= Tf(i), A(m) == A(i)]
+        return hyps, A(m + 1) == A(i)
+    return fn
 
 
 def register(reg):
+    for step_mode in (False, True):
+        for per_time in (True, False):
+            tag = f"{'step' if step_mode else 'linear'}{'' if per_time else ',absolute'}"
+            reg.lemma(f"C12.L0 tail-adds-nothing (induction step) <{tag}>", ["C12.L0"], lemma_tail(step_mode, per_time))
+    for step_mode in (False, True):
+        for per_time in (True, False):
+            tag = f"{'step' if step_mode else 'linear'}{'' if per_time else ',absolute'}"
+            reg.lemma(f"C12.L1a piece additivity over adjacent windows <{tag}>", ["C12.L1"], lemma_piece_additive(step_mode, per_time))
+        reg.lemma(f"C12.L2a piece within [min,max] x overlap <{'step' if step_mode else 'linear'}>", ["C12.L2"], lemma_piece_bounds(step_mode))
+    reg.lemma("C12.L1b sums of additive pieces are additive (induction step)", ["C12.L1"], lemma_sum_additive)
+    reg.lemma("C12.L2b overlap lengths telescope to the window length (induction step)", ["C12.L2"], lemma_overlap_telescopes)
+    reg.lemma("C12.L2c mean-value bound is preserved by adding a bounded piece (induction step)", ["C12.L2"], lemma_mean_step)
+    reg.lemma("C12.Lw step weights = measure of the overlap below/above the step position", ["C12.Lw"], lemma_weights)
     for cls in ("SumOverTime", "AvgOverTime"):
         for step_mode in (False, True):
             for per_time in ((True, False) if cls == "SumOverTime" else (True,)):
                 _register_interp(reg, cls, step_mode, per_time)
+    register_getdata(reg)
 
 
 def _register_interp(reg, cls, step_mode, per_time):
@@ -96,7 +223,7 @@ def _register_interp(reg, cls, step_mode, per_time):
         p0 = strip_none(ctx.get(a, "_prev_time")).e
         total = AREA(d.n - 1)
         if cls == "AvgOverTime":
-            want = total / (z3.ToReal(ctx.time.e - p0) / US)
+            want = sv.rdiv(total, z3.ToReal(ctx.time.e - p0) / US)
         else:
             want = total
         return And(is_payload(r), res_e(r) == want)
@@ -119,5 +246,66 @@ def _register_interp(reg, cls, step_mode, per_time):
         f"{TI}.{cls}._interpolate", self_cls=cls, props=["C12.2" if cls == "SumOverTime" else "C12.3", "C10.3"],
         params={"time": Time}, result=Pay, requires=pre, ensures=post, modifies=lambda ctx: [],
         raises={}, loops={1: dict(invariant=inv, locals={"sum_value": TOpt(Pay), "v_old": Pay, "t_old": Time})}, axioms=lambda ctx: area_axioms(ctx, step_mode, per_time),
-        name=f"_interpolate<{tag}>", primary=(not step_mode and per_time),
+        name=f"_interpolate<{tag}>", primary=False,
     ))
+
+
+# =================================================================================================
+# _get_data of the integration adapters (C12.1), degenerate/initial branch, _source_updated
+# =================================================================================================
+INTEGF = z3.Function("IntegResult", sv.IntS, sv.IntS, sv.IntS, sv.IntS, sv.IntS, sv.RealS)
+
+
+def integ_term(ctx, a, t):
+    d = ctx.get(a, "data")
+    return INTEGF(a.e, t, strip_none(ctx.get(a, "_prev_time")).e, d.n, tm(d, z3.IntVal(0)))
+
+
+def register_getdata(reg):
+    from .c_time import buf_inv
+
+    for cls in ("SumOverTime", "AvgOverTime"):
+        # caller-facing abstraction of _interpolate: a function of (adapter, request, window start, buffer extent);
+        # its meaning is fixed by the mode-specific units above
+        reg.add(Contract(
+            f"{TI}.{cls}._interpolate", self_cls=cls, params={"time": Time}, result=Pay, verify=False, pure=True,
+            requires=lambda ctx: And(ctx.get(ctx.self, "data").n >= 1, Not(is_none(ctx.get(ctx.self, "_prev_time")))),
+            ensures=lambda ctx, r: r.e == integ_term(ctx, ctx.self, ctx.time.e),
+            raises={"FinamTimeError": lambda ctx: strip_none(ctx.get(ctx.self, "_prev_time")).e >= ctx.time.e} if cls == "AvgOverTime" else {},
+            note="abstract view used by _get_data; verified per mode as _interpolate<linear|step[,absolute]>",
+        ))
+
+        def gd_nodata(ctx):
+            return ctx.old.get(ctx.self, "data").n == 0
+
+        def gd_timeerr(ctx):
+            d = ctx.old.get(ctx.self, "data")
+            t = ctx.time.e
+            return And(d.n > 0, Or(t < tm(d, z3.IntVal(0)), t > tm(d, d.n - 1)))
+
+        def gd_pre(ctx):
+            a = ctx.self
+            d = ctx.get(a, "data")
+            p0 = ctx.get(a, "_prev_time")
+            return And(buf_inv(ctx, a), Implies(d.n >= 1, And(Not(is_none(p0)), tm(d, z3.IntVal(0)) <= strip_none(p0).e)))
+
+        def gd_post(ctx, r):
+            a = ctx.self
+            d0, d1 = ctx.old.get(a, "data"), ctx.get(a, "data")
+            p0 = strip_none(ctx.old.get(a, "_prev_time")).e
+            p1 = ctx.get(a, "_prev_time")
+            return And(is_payload(r), res_e(r) == integ_term(ctx.old, a, ctx.time.e),
+                       Not(is_none(p1)), strip_none(p1).e == ctx.time.e,
+                       buf_inv(ctx, a), d1.n >= 1, suffix_of(d1, d0),
+                       # the entry bracketing the new window start `time` is kept: the next window [time, .] is covered
+                       Implies(p0 <= ctx.time.e, tm(d1, z3.IntVal(0)) <= ctx.time.e),
+                       removed_dropped(ctx, d0, d1), only_removed(ctx, d0))
+
+        raises = {"FinamNoDataError": gd_nodata, "FinamTimeError": lambda ctx: z3.BoolVal(True)}
+        reg.add(Contract(
+            f"{TI}.TimeIntegrationAdapter._get_data", self_cls=cls, props=["C12.1", "C10.4"],
+            params={"time": Time, "_target": TOpt(TRef("IInput"))}, result=Pay,
+            requires=gd_pre, ensures=gd_post, modifies=lambda ctx: MOD_BUF(ctx) + [(ctx.self, "_prev_time")],
+            raises=raises, must_raise={"FinamNoDataError": gd_nodata, "FinamTimeError": gd_timeerr},
+            name="_get_data",
+        ))
